@@ -140,7 +140,7 @@ class C04(HistoryProfile):
   technique = ("deterministic simulation with fault injection: twin engines in lock-step, one "
                "seeded (quick) or every counted (thorough) failure position per selected bundle, "
                "rollback checked against the pre-state and retry checked against the fault-free twin")
-  quick_runs = 200
+  quick_runs = 500
   max_events = 22
   p_fault = 0.45
   p_bad = 0.12
